@@ -5,8 +5,9 @@ CONSTANTS
   MaxDepth = 4
   Actions <- DeclActions
   InitDeclared = 1
+CONSTANT BuildFuns <- FunsQ
 INIT Init
-NEXT Next
+NEXT NextB
 CONSTRAINT Bound
 INVARIANT InvCanonical
 INVARIANT InvDenInjective
